@@ -169,6 +169,14 @@ def scenarios():
     for a in same:
         steps = [call(c['id'], a) for c in cfgs] + [call(c['id'], a) for c in reversed(cfgs)]
         scen('same-abbreviation-across-configs/%s' % a, _w(cfgs), steps)
+    # ... and the same family again with ONE cache dict handed to every config (a markup call gets it too)
+    mcfgs = [dict(c, cache='k0') for c in cfgs]
+    for c in mcfgs:
+        c.setdefault('snippets', {})
+        c['snippets'] = dict(c['snippets'], au='p{(c) ${lang} ${charset}}', rp='ul>li.i$*4')
+    for a in same + ['doc', 'html:xt', 'au', 'rp', 'au+rp+!']:
+        steps = [call(c['id'], a) for c in mcfgs] + [call(c['id'], a) for c in reversed(mcfgs)]
+        scen('same-abbreviation-across-configs-sharing-a-cache/%s' % a, _w(mcfgs, caches=['k0']), steps)
     svariants = [
         {}, {'options': {'stylesheet.intUnit': 'pt'}}, {'options': {'stylesheet.unitless': []}}, {'options': {'stylesheet.fuzzySearchMinScore': 0.6}},
         {'context': {'name': '@@section'}}, {'context': {'name': 'margin'}}, {'options': {'stylesheet.json': True}}, {'syntax': 'stylus'},
